@@ -59,10 +59,10 @@ pub fn build_hooked() -> Result<PathBuf, String> {
 /// addresses, taken from the symbol table of `bin`, of the standard library's entry points
 /// through which a thread gets at standard output. None when the tool cannot be built or used
 /// (no C compiler, ptrace forbidden) or the binary has no such symbols.
-pub fn ptdelay_tool(bin: &Path) -> Option<(PathBuf, String)> {
+pub fn ptdelay_tool(bin: &Path) -> Option<(PathBuf, Option<String>, Option<String>)> {
     use std::sync::{Mutex, OnceLock};
     static TOOL: OnceLock<Option<PathBuf>> = OnceLock::new();
-    static ADDRS: OnceLock<Mutex<std::collections::HashMap<PathBuf, Option<String>>>> = OnceLock::new();
+    static ADDRS: OnceLock<Mutex<std::collections::HashMap<PathBuf, (Option<String>, Option<String>)>>> = OnceLock::new();
     let tool = TOOL
         .get_or_init(|| {
             let root = crate::ev::root();
@@ -94,34 +94,52 @@ pub fn ptdelay_tool(bin: &Path) -> Option<(PathBuf, String)> {
     let addrs = g
         .entry(bin.to_path_buf())
         .or_insert_with(|| {
-            let out = Command::new("nm").arg("-C").arg(bin).output().ok()?;
-            let text = String::from_utf8_lossy(&out.stdout).to_string();
-            let mut v: Vec<String> = Vec::new();
+            let text = match Command::new("nm").arg("-C").arg(bin).output() {
+                Ok(o) => String::from_utf8_lossy(&o.stdout).to_string(),
+                Err(_) => return (None, None),
+            };
+            let mut so: Vec<String> = Vec::new();
+            let mut ho: Vec<String> = Vec::new();
             for l in text.lines() {
                 let mut it = l.splitn(3, ' ');
-                let (a, k, name) = (it.next()?, it.next().unwrap_or(""), it.next().unwrap_or(""));
+                let (a, k, name) = (it.next().unwrap_or(""), it.next().unwrap_or(""), it.next().unwrap_or(""));
                 if !(k == "t" || k == "T") {
                     continue;
                 }
-                let hit = name == "std::io::stdio::_print"
+                let addr = a.trim_start_matches('0').to_string();
+                if addr.is_empty() {
+                    continue;
+                }
+                let stdout_hit = name == "std::io::stdio::_print"
                     || name == "std::io::stdio::stdout"
                     || name == "std::io::stdio::print_to"
-                    || ((name.starts_with("<std::io::stdio::Stdout as std::io::Write>::") || name.starts_with("<&std::io::stdio::Stdout as std::io::Write>::")))
+                    || name.starts_with("<std::io::stdio::Stdout as std::io::Write>::")
+                    || name.starts_with("<&std::io::stdio::Stdout as std::io::Write>::")
                     || name == "<std::io::stdio::Stdout>::lock"
                     || name == "std::io::stdio::Stdout::lock";
-                if hit {
-                    v.push(a.trim_start_matches('0').to_string());
+                // channel operations are generic and therefore instantiated in the engine's own
+                // crate; only the outermost entry points are taken (no closures, no internals)
+                let chan = (name.starts_with("std::sync::mpmc::Sender<") || name.starts_with("std::sync::mpmc::Receiver<") || name.starts_with("std::sync::mpsc::Sender<") || name.starts_with("std::sync::mpsc::Receiver<") || name.starts_with("std::sync::mpsc::SyncSender<")
+                    || name.starts_with("<std::sync::mpmc::Sender<") || name.starts_with("<std::sync::mpmc::Receiver<") || name.starts_with("<std::sync::mpsc::Sender<") || name.starts_with("<std::sync::mpsc::Receiver<") || name.starts_with("<std::sync::mpsc::SyncSender<"))
+                    && !name.contains("{{closure}}") && !name.contains("{closure")
+                    && ["::send", "::try_send", "::try_recv", "::recv", "::recv_timeout", "::recv_deadline"].iter().any(|s| name.ends_with(s));
+                let drop_end = (name.starts_with("core::ptr::drop_in_place<std::sync::mpsc::Receiver<") || name.starts_with("core::ptr::drop_in_place<std::sync::mpsc::Sender<") || name.starts_with("core::ptr::drop_in_place::<std::sync::mpsc::Receiver<") || name.starts_with("core::ptr::drop_in_place::<std::sync::mpsc::Sender<")) && name.ends_with(">>");
+                let thread_start = name == "<std::sys::thread::unix::Thread>::new::thread_start" || name == "std::sys::thread::unix::Thread::new::thread_start";
+                if stdout_hit {
+                    so.push(addr);
+                } else if chan || drop_end || thread_start {
+                    ho.push(addr);
                 }
             }
-            if v.is_empty() {
-                None
-            } else {
-                v.truncate(60);
-                Some(v.join(","))
-            }
+            so.truncate(30);
+            ho.truncate(30);
+            (if so.is_empty() { None } else { Some(so.join(",")) }, if ho.is_empty() { None } else { Some(ho.join(",")) })
         })
-        .clone()?;
-    Some((tool, addrs))
+        .clone();
+    if addrs.0.is_none() && addrs.1.is_none() {
+        return None;
+    }
+    Some((tool, addrs.0, addrs.1))
 }
 
 pub struct CliOut {
@@ -230,11 +248,24 @@ pub struct SpawnOpts {
     /// `Stdout::lock`, `stdout()`) keeps that thread - and only that thread - stopped for a
     /// pseudo-random time of up to the given number of microseconds: (max_us, seed)
     pub ptdelay: Option<(u32, u64)>,
+    /// which entry points `ptdelay` covers (default: standard output only)
+    pub ptset: PtSet,
+}
+
+#[derive(Clone, Copy, PartialEq, Eq, Debug, Default)]
+pub enum PtSet {
+    /// `_print`, `<Stdout as Write>::*`, `Stdout::lock`, `stdout()`
+    #[default]
+    Stdout,
+    /// the hand-off between the two threads: channel `send` / `try_recv` / `recv*`, the drop of
+    /// either channel end, the first instruction of a new thread
+    Handoff,
+    Both,
 }
 
 impl Default for SpawnOpts {
     fn default() -> Self {
-        SpawnOpts { env: vec![], pin_cpu: None, valgrind: false, strace_write_delay_us: None, ptdelay: None }
+        SpawnOpts { env: vec![], pin_cpu: None, valgrind: false, strace_write_delay_us: None, ptdelay: None, ptset: PtSet::Stdout }
     }
 }
 
@@ -251,7 +282,17 @@ impl Engine {
             c.args(["-f", "-q", "-e", "trace=write", "-e", &format!("inject=write:delay_exit={}", us), "-o", "/dev/null"]);
             c.arg(bin);
             c
-        } else if let (Some((max_us, seed)), Some((tool, addrs))) = (opts.ptdelay, ptdelay_tool(bin)) {
+        } else if let (Some((max_us, seed)), Some((tool, addrs))) = (opts.ptdelay, ptdelay_tool(bin).and_then(|(t, so, ho)| {
+            let a = match opts.ptset {
+                PtSet::Stdout => so,
+                PtSet::Handoff => ho,
+                PtSet::Both => match (so, ho) {
+                    (Some(a), Some(b)) => Some(format!("{},{}", a, b)),
+                    (a, b) => a.or(b),
+                },
+            };
+            a.map(|a| (t, a))
+        })) {
             let mut c = Command::new(tool);
             c.args([max_us.to_string(), seed.to_string(), format!("{}/ptdelay.stats", workdir.display()), addrs, "--".to_string()]);
             c.arg(bin);
